@@ -21,6 +21,7 @@ SRC2 = {"json": {"k": [3]}, "text": "second", "pickle": (2,), "binary": b"\x02"}
 
 
 def run_files(ctx):
+    overlapping_writes(ctx)
     uj = core.use_repo()
     import c11_common as cc
     from uberjob.stores import BinaryFileStore, JsonFileStore, PickleFileStore, TextFileStore
@@ -61,8 +62,13 @@ def run_files(ctx):
 
                 # number of file operations of the complete run
                 with cc.Injector(0) as inj:
-                    uj.run(plan, registry=reg, output=c, progress=None, max_workers=1)
+                    out0 = uj.run(plan, registry=reg, output=c, progress=None, max_workers=1)
                 nops = inj.n
+                ctx.case(("c08-files-complete", kind, scenario))
+                if out0 != exp_c or a_store.read() != exp_a or c_store.read() != exp_c:
+                    # (the source was rewritten 20 ms after the stores: later, usually within the same second)
+                    ctx.fail("file:complete-run-wrong", "file stores (%s, %s): the uninterrupted run returns %r and leaves a=%r; from scratch: %r, a=%r"
+                             % (kind, scenario, out0, a_store.read(), exp_c, exp_a), {"store": kind, "scenario": scenario, "file_ops": nops})
                 ctx.count("file_ops_per_run", nops)
                 for k in range(nops):
                     for how in (2, 3):
@@ -104,3 +110,61 @@ def run_files(ctx):
                 shutil.rmtree(base, ignore_errors=True)
             finally:
                 shutil.rmtree(d, ignore_errors=True)
+
+
+def overlapping_writes(ctx):
+    """Two file stores whose paths differ only in the extension (str and pathlib), written by two workers at overlapping
+    times (the rename of the first is delayed - timing only): whatever happens to the first run, the next run leaves the
+    from-scratch values in both stores."""
+    import pathlib
+    import time
+    uj = core.use_repo()
+    import uberjob.stores._file_store as fsm
+    from uberjob.stores import JsonFileStore, TextFileStore
+    for pk in ("str", "pathlib"):
+        d = tempfile.mkdtemp(prefix="ujc08o_")
+        real_replace = fsm.os.replace
+        try:
+            mk = (lambda n: os.path.join(d, n)) if pk == "str" else (lambda n: pathlib.Path(d) / n)
+            with open(os.path.join(d, "in.txt"), "w") as f:
+                f.write("5")
+            plan, reg = uj.Plan(), uj.Registry()
+            src = plan.call(int, reg.source(plan, TextFileStore(mk("in.txt"))))
+            x = plan.call(lambda v: {"x": v}, src)
+            y = plan.call(lambda v: (time.sleep(0.05), "y=%d" % v)[1], src)
+            sx, sy = JsonFileStore(mk("stats.json")), TextFileStore(mk("stats.txt"))
+            reg.add(x, sx)
+            reg.add(y, sy)
+
+            class SlowReplace:
+                def __getattr__(self, k):
+                    return getattr(os, k)
+
+                @staticmethod
+                def replace(a, b):
+                    # x stages first, y stages while x waits to rename, x renames, then y renames
+                    time.sleep(0.25 if str(b).endswith("stats.json") else 0.5 if str(b).endswith("stats.txt") else 0)
+                    return real_replace(a, b)
+            fsm.os = SlowReplace()
+            try:
+                try:
+                    uj.run(plan, registry=reg, output=[x, y], progress=None, max_workers=3)
+                    first = "returned"
+                except uj.CallError as e:
+                    first = "cut: %r" % (e.__cause__,)
+            finally:
+                fsm.os = os
+            ctx.case(("c08-overlap", pk))
+            ctx.count("overlap_first_run", first.split(":")[0])
+            try:
+                out = uj.run(plan, registry=reg, output=[x, y], progress=None, max_workers=1)
+                got = (out, sx.read(), sy.read())
+            except BaseException as e:      # noqa
+                got = ("raised", type(e).__name__, str(e)[:80])
+            want = ([{"x": 5}, "y=5"], {"x": 5}, "y=5")
+            if got != want:
+                ctx.fail("file-overlap:not-repaired", "stores stats.json / stats.txt (%s paths) written at overlapping times: first run %s; after the next run: %r, "
+                         "from scratch: %r" % (pk, first, got, want), {"path_kind": pk, "first_run": first, "listing": sorted(os.listdir(d))})
+        finally:
+            fsm.os = os
+            shutil.rmtree(d, ignore_errors=True)
